@@ -1370,12 +1370,13 @@ def sub_gate_kraus(ctx):
             # the Kraus rank (number of non-zero Choi eigenvalues) as a DETERMINISTIC dimension: 1, 2, d^2 - 1 and the full rank d^2 (generic
             # operators), full rank with a completely degenerate spectrum (all d^2 matrix units, equal weights: Choi = I/4) and full rank with
             # weak noise (smallest eigenvalues of order 1e-5) - every eigenvalue above Settings.get_atol() must contribute an operator
-            for r in sorted({1, 2, d * d - 1, d * d}):
+            for r in (sorted({1, 2, d * d - 1, d * d}) if (d < 4 or not ctx.quick) else [1, d * d]):      # d = 4 in the quick tier: rank 1 and the full rank only
                 Ks = [rand_cplx(rng, d, d) / 4 for _ in range(r)]
                 cases.append({"cfg": n, "gen": "rank=%s" % ("d^2" if r == d * d else ("d^2-1" if r == d * d - 1 else r)), "Ks": [jc(x) for x in Ks],
                               "X": jc(rand_cplx(rng, d, d)), "tols": [None, 1e-6]})
             Ks = [unit(d * d, i, (d, d)).astype(complex) / 2 for i in range(d * d)]
-            cases.append({"cfg": n, "gen": "full-rank-degenerate", "Ks": [jc(x) for x in Ks], "X": jc(rand_cplx(rng, d, d)), "tols": [None, 1e-6]})
+            if d < 4 or not ctx.quick:
+                cases.append({"cfg": n, "gen": "full-rank-degenerate", "Ks": [jc(x) for x in Ks], "X": jc(rand_cplx(rng, d, d)), "tols": [None, 1e-6]})
             Ks = [np.eye(d, dtype=complex) + rand_cplx(rng, d, d) / 16] + [rand_cplx(rng, d, d) * 2.0 ** -8 for _ in range(d * d - 1)]
             cases.append({"cfg": n, "gen": "full-rank-weak", "Ks": [jc(x) for x in Ks], "X": jc(rand_cplx(rng, d, d)), "tols": [None, 1e-4]})
         if not is_smoke(ctx, n) and c.hermitian and c.orthonormal:
@@ -1879,11 +1880,11 @@ def _timed(name, fn):
     return g
 
 
-WIDEN_ON_BROKEN_TIE = ("state", "povm", "povm_product", "gate_var", "truncate")
+WIDEN_ON_BROKEN_TIE = ("state", "povm", "povm_product", "gate_var", "mprocess", "truncate")
 
 
 def regen_glue(ctx):
-    """translator tie (protocol of flow.regen_check, with this property's own translator gen/c02_py2coq.py): regenerate the Gallina text of the 25
+    """translator tie (protocol of flow.regen_check, with this property's own translator gen/c02_py2coq.py): regenerate the Gallina text of the 33
     glue functions (wrappers, call skeletons, truncate_hs threshold logic - list TARGETS in the translator) from the CURRENT source, compile it and
     re-check coq/gen/C02_Equiv.v (call skeletons; transported round trips; regenerated truncate_hs = model).  returns (ok, info)"""
     import os, re, shutil, subprocess, sys
